@@ -493,9 +493,10 @@ def main(argv=None):
         assumptions=meta.get('assumptions', []) + ['floats modelled as exact reals; IEEE rounding/overflow/NaN outside the claim'],
         wall_s=round(wall, 2), violations=nviol,
     )
-    os.makedirs(os.path.join(VERIF, 'evidence'), exist_ok=True)
+    evdir = os.environ.get('VERIF_EVIDENCE_DIR') or os.path.join(VERIF, 'evidence')
+    os.makedirs(evdir, exist_ok=True)
     if a.only is None:
-        with open(os.path.join(VERIF, 'evidence', pid + '.json'), 'w') as f:
+        with open(os.path.join(evdir, pid + '.json'), 'w') as f:
             json.dump(_jsonable(ev), f, indent=1)
     print('%s tier=%s groups=%d paths=%d obligations=%d discharged=%d known=%d violations=%d inconclusive=%d errors=%d queries=%d wall=%.1fs' % (
         pid, tier, len(results), ev['coverage']['paths'], obligations, discharged, nknown, nviol, ninc, nerr,
